@@ -73,6 +73,16 @@ def check_C16(chk):
     # a message received from INSIDE another message's deserialisation, well-formed or not (among them: no attachments of its own, bytes
     # that claim an attachment of the enclosing message): it can only ever yield endpoints attached to itself
     nfails = []
+    # a message whose attachment is never referenced by the decode (it fails, or the type ends first), received while standard stream
+    # numbers are free: the descriptor - whatever number it got - is released with the message (res scenarios shared with C11)
+    lrecs, _, lrc, lerr = C.run_harness(bins["default"], "res", ["scen name=undecoded_low_fd n=3", "scen name=prefix_decode_fresh_thread n=3"], shim=False, timeout=120)
+    for sname in ("undecoded_low_fd", "prefix_decode_fresh_thread"):
+        lr = next((r for r in lrecs if r.get("kind") == "scen" and r.get("name") == sname), None)
+        if lr is None:
+            nfails_pre = "scenario %s did not complete (rc=%s): %s" % (sname, lrc, lerr[-300:])
+            chk.failing_input(nfails_pre, {"scenario": sname}, key="c16res:%s" % sname)
+        elif lr.get("notes"):
+            chk.failing_input("scenario %s: %s" % (sname, lr["notes"][0]), {"scenario": sname, "record": lr}, key="c16res:%s:notes" % sname)
     ncases, ntodo, nbad = nestrecv_stage(chk, random.Random(chk.seed + 23), bins["default"], 300 if thorough else 40, nfails, tag="c16n")
     chk.coverage["nested_receive_cases"] = len(ncases)
     finish_proof(chk, proof_ok, fails + nfails, bad + nbad)
